@@ -59,9 +59,11 @@ Definition msg_evolve (slow : bool) (S S' : schema) (limit : nat) (bs : list byt
 
 Definition msg_is_unknown_for (md : mdesc) (num typ : N) : bool := msg_rejects md true num typ.
 
-(* every populated field of the top-level message has a scalar kind (scalars of all 16 kinds,
-   lists of scalars, maps with scalar values): the class of messages for which schema evolution
-   is proved (C09_schema_evolution_partial) *)
+(* the populated fields of the top-level message that are KEPT ([kp num = true]) have a scalar kind
+   (scalars of all 16 kinds, lists of scalars, maps with scalar values); the deleted ones are
+   arbitrary: the class of messages for which schema evolution is proved
+   (C09_schema_evolution_partial) *)
 Definition msg_scalar_kind (fd : fdesc) : bool := match f_kind fd with KS _ => true | _ => false end.
-Definition msg_flat (md : mdesc) (fs : fields) : bool :=
-  forallb (fun p => match msg_find_field md (fst p) with Some fd => msg_scalar_kind fd | None => false end) fs.
+Definition msg_kept_scalar (kp : N -> bool) (md : mdesc) (fs : fields) : bool :=
+  forallb (fun p => negb (kp (fst p)) ||
+                    match msg_find_field md (fst p) with Some fd => msg_scalar_kind fd | None => false end) fs.
